@@ -184,6 +184,10 @@ def check(cfg, choices, out, mon, unhandled, rec):
     ran = sorted(i for i, w in mon.events if w == 'run')
     if ran != runs:
         return viol('C10:methods not executed exactly once each', runs, ran)
+    if cfg['mw'] != 'none':
+        entered = sorted(i for i, w in mon.events if w == 'enter')
+        if entered != list(range(len(cfg['elems']))):
+            return viol('C10:middleware did not run exactly once for every element', list(range(len(cfg['elems']))), entered)
     if unhandled:
         return viol('C10:exception reached the loop exception handler', [], [str(u.get('message')) for u in unhandled])
     if not cfg['concurrent']:
